@@ -67,6 +67,128 @@ theorem getValues_absent (c : Ctx) (s : State) (k : Bytes) (h1 : s.lookup c.db k
 theorem keysExist_single (s : State) (i : Nat) (k : Bytes) : keysExist s i [k] = [(s.lookup i k).isSome] := by
   simp [keysExist]
 
+/-! ### GETRANGE / SUBSTR against the reference substring -/
+
+/-- the reference reading of a GETRANGE index pair (Redis): negative indices count from the end, the start is
+    clamped to the first byte and the end to the last one; the range is the bytes `s … e` inclusive -/
+def refRange (len start end_ : Int) : Int × Int :=
+  let s := if start < 0 then len + start else start
+  let e := if end_ < 0 then len + end_ else end_
+  let s := if s < 0 then 0 else s
+  let e := if e ≥ len then len - 1 else e
+  (s, e)
+
+/-- whenever the reference range is non-empty the handler's index arithmetic selects exactly it -/
+theorem subStrIdx_ref (len start end_ : Int) (hl : 0 ≤ len)
+    (h : (refRange len start end_).1 ≤ (refRange len start end_).2) :
+    subStrIdx len start end_ = ((refRange len start end_).1, (refRange len start end_).2 + 1) := by
+  unfold refRange at h ⊢
+  unfold subStrIdx
+  simp only [Prod.mk.injEq, Bool.and_eq_true, decide_eq_true_eq, ge_iff_le] at h ⊢
+  constructor <;> (repeat' split) <;> omega
+
+/-- **GETRANGE returns the reference substring, for every string and every start / end.** Whenever the
+    reference range `s … e` is non-empty, the reply is the bulk string of exactly the bytes `s … e` of the
+    stored value (and by `subStrPure_total` there is a reply in every other case as well). -/
+theorem subStrPure_ref (t : Bytes) (start end_ : Int)
+    (h : (refRange t.length start end_).1 ≤ (refRange t.length start end_).2) :
+    subStrPure t start end_ =
+      .done (.ok (bulkStr ((t.drop (refRange t.length start end_).1.toNat).take
+        ((refRange t.length start end_).2 - (refRange t.length start end_).1 + 1).toNat))) := by
+  have hi := subStrIdx_ref t.length start end_ (Int.natCast_nonneg _) h
+  unfold subStrPure
+  simp only [hi]
+  have hnr : ¬ ((refRange t.length start end_).1 > (refRange t.length start end_).2 + 1) := by omega
+  simp only [hnr, decide_false, Bool.false_eq_true, if_false]
+  congr 4
+  omega
+
+/-- the index arithmetic never panics and never errors: every start / end on every string ends in a bulk reply
+    (or, for a reversed range over non-ASCII bytes, outside the exactly-modelled domain) -/
+theorem subStrPure_total (t : Bytes) (start end_ : Int) :
+    (∃ x : Bytes, subStrPure t start end_ = .done (.ok (bulkStr x))) ∨ (∃ w, subStrPure t start end_ = .unmod w) := by
+  unfold subStrPure
+  extract_lets se rev lo hi str
+  split
+  · split
+    · exact Or.inr ⟨_, rfl⟩
+    · exact Or.inl ⟨_, rfl⟩
+  · exact Or.inl ⟨_, rfl⟩
+
+/-! ### MGET: one element per argument, nil exactly for the keys that read as absent -/
+
+/-- what key `k` reads as: its value if stored and not past its deadline, else nil -/
+def readVal (c : Ctx) (s : State) (k : Bytes) : Val := ((obsAt c.now s c.db k).map (·.val)).getD .nil
+
+theorem getValues_readVal (c : Ctx) : ∀ (ks : List Bytes) (s : State), (getValues c s ks).2 = ks.map (readVal c s) := by
+  intro ks
+  induction ks with
+  | nil => intro s; rfl
+  | cons k r ih =>
+    intro s
+    unfold getValues
+    cases h : s.lookup c.db k with
+    | none =>
+      simp only [List.map_cons, ih]
+      simp [readVal, obsAt, h]
+    | some e =>
+      simp only
+      by_cases he : e.expired c.now = true
+      · simp only [he, if_true, List.map_cons, ih]
+        have : readVal c (deleteKey s c.db k) = readVal c s := by
+          funext k2; unfold readVal; rw [obsAt_deleteKey_expired c.now s c.db k e h he]
+        rw [this]
+        simp [readVal, obsAt, h, he]
+      · simp only [he, List.map_cons, ih]
+        simp [readVal, obsAt, h, he]
+
+/-- the element MGET writes for one value: a nil bulk for nil, else the bulk string of its text -/
+def mgetElem (v : Val) : Bytes :=
+  match v with
+  | .nil => nilBulk
+  | v => bulkStr ((v.fmtV).getD [])
+
+theorem mgetBody_elems : ∀ (vs : List Val), (∀ v ∈ vs, (mgetText v).isSome) →
+    mgetBody vs = some (vs.map mgetElem).flatten := by
+  intro vs
+  induction vs with
+  | nil => intro _; rfl
+  | cons v r ih =>
+    intro h
+    have hv := h v (List.mem_cons_self ..)
+    have hr := ih (fun x hx => h x (List.mem_cons_of_mem _ hx))
+    unfold mgetBody
+    cases ht : mgetText v with
+    | none => simp [ht] at hv
+    | some t =>
+      simp only [hr, Option.bind_eq_bind, Option.bind_some, Option.pure_def, List.map_cons, List.flatten_cons]
+      cases v <;> simp_all [mgetElem, mgetText]
+
+
+/-- a key that is stored lives in a created database -/
+theorem hasDb_of_lookup (s : State) (i : Nat) (k : Bytes) (e : Entry) (h : s.lookup i k = some e) : s.hasDb i = true := by
+  unfold State.lookup State.db at h
+  unfold State.hasDb
+  cases hd : s.dbs.get i with
+  | none => simp [hd] at h
+  | some d => rfl
+
+/-- setExpiry on a stored key: the deadline is replaced (or cleared), the value kept, every other key untouched -/
+theorem setExpiry_present (c : Ctx) (s : State) (k : Bytes) (e : Entry) (x : Option Int)
+    (h : s.lookup c.db k = some e) :
+    ∃ s', setExpiry c s k x = some s' ∧ s'.lookup c.db k = some ⟨e.val, x⟩ ∧
+      (∀ k2, k ≠ k2 → s'.lookup c.db k2 = s.lookup c.db k2) ∧ s'.mem = s.mem := by
+  have hdb := hasDb_of_lookup s c.db k e h
+  unfold setExpiry
+  simp only [hdb, Bool.not_true, Bool.false_eq_true, if_false]
+  refine ⟨_, rfl, ?_, ?_, rfl⟩
+  · unfold State.lookup State.db at h
+    simp [State.lookup, State.db, h]
+  · intro k2 hne
+    simp only [State.lookup, State.db, NMap.get_put_same, Option.getD_some]
+    rw [KMap.get_put_other _ _ _ _ hne]
+
+
 @[simp] theorem run_ret {α : Type} (c : Ctx) (s : State) (a : α) : (Prog.ret a).run c s = (s, .done a) := rfl
 @[simp] theorem run_panic {α : Type} (c : Ctx) (s : State) (w : String) : (Prog.panic w : Prog α).run c s = (s, .panic w) := rfl
 @[simp] theorem run_unmod {α : Type} (c : Ctx) (s : State) (w : String) : (Prog.unmod w : Prog α).run c s = (s, .unmod w) := rfl
@@ -102,5 +224,29 @@ theorem run_setExpiry_some {α : Type} (c : Ctx) (s s' : State) (key : Bytes) (e
     show (Sugar.setExpiry c s key e).map (fun s' => (s', ())) = _
     rw [h]; rfl
   exact (run_call c s (Prim.setExpiry key e t) k).trans (by rw [hx])
+
+theorem persist_tokens : isAscii (b "persist") = true ∧ toUpper (b "persist") = b "PERSIST" ∧
+    isAscii (b "PERSIST") = true ∧ toUpper (b "PERSIST") = b "PERSIST" := by decide
+
+/-- GETEX k PERSIST [ignored] on a live key with a printable value: the run is exactly "answer the value, clear the
+    deadline through setExpiry" -/
+theorem handleGetex_persist_run (c : Ctx) (s : State) (k opt : Bytes) (rest : List Bytes) (e : Entry) (t : Bytes)
+    (h : s.lookup c.db k = some e) (hlive : e.expired c.now = false) (hv : e.val.fmtV = some t)
+    (ha : isAscii opt = true) (ho : toUpper opt = b "PERSIST") (hr : rest.length ≤ 1) :
+    ∃ s', (handleGetex c (b "getex" :: k :: opt :: rest)).run c s = (s', .done (.ok (simpleStr t))) ∧
+      s'.lookup c.db k = some ⟨e.val, none⟩ ∧ (∀ k2, k ≠ k2 → s'.lookup c.db k2 = s.lookup c.db k2) ∧ s'.mem = s.mem := by
+  obtain ⟨s', hs, h1, h2, h3⟩ := setExpiry_present c s k e none h
+  have hlen : ((b "getex" :: k :: opt :: rest).length < 2 || (b "getex" :: k :: opt :: rest).length > 4) = false := by
+    simp only [List.length_cons]
+    have : ¬ (rest.length + 1 + 1 + 1 < 2) := by omega
+    have : ¬ (rest.length + 1 + 1 + 1 > 4) := by omega
+    simp [*]
+  refine ⟨s', ?_, h1, h2, h3⟩
+  unfold handleGetex
+  simp only [hlen, Bool.false_eq_true, if_false, run_keysExist, keysExist_single, h, Option.isSome_some,
+    List.headD_cons, Bool.not_true, run_getValues, getValues_live c s k e h hlive, plusV, hv, ha, ho,
+    BEq.rfl, if_true]
+  rw [run_setExpiry_some c s s' k none false _ hs]
+  rfl
 
 end Sugar
